@@ -295,3 +295,17 @@ PROPS['C18'] = dict(
     level_text='Proof for the type resolution (C18_type_resolution_order_independent, C18_alias_wins, C18_extension_beats_sniffing); the conversions themselves by exploration through the built command line tool.',
     level_note='Fixes made while building this check: named graphs merged into triples-only outputs; content sniffing overriding the file extension.',
 )
+
+PROPS['C09'] = dict(
+    families=[dict(name='c09-rdfxml', quick=3000, thorough=300000)],
+    slice=25,
+    rule='element trees drawn production by production from RDF 1.1 XML Syntax section 7: rdf:RDF or a single node element as root; typed and plain node elements; rdf:about (absolute and all kinds of relative references, empty), rdf:ID, rdf:nodeID; property attributes and rdf:type attributes; '
+         'property elements: literal (with and without rdf:datatype, empty), resource (nested node element), empty with rdf:resource / rdf:nodeID / property attributes / nothing, parseType Resource and Collection, rdf:ID reification, rdf:li and explicit rdf:_n; xml:lang (incl. "") and xml:base (absolute, relative, with fragment) on every kind of element, nested three deep; '
+         'each tree written as XML text with free choice of namespace prefixes (incl. a default namespace), attribute order and quoting, white space and comments between elements, character references, CDATA, XML declaration, empty-element tags; decoded with offset capture on (1/3) and off; the decoded graph is compared, up to blank node renaming, with the triples the Gallina model of the mapping assigns to the same tree',
+    trusted_base=['model/RdfXml.v: the RDF/XML mapping on namespace-resolved trees (rdf:parseType="Literal" excluded), with model/Iri3986.v for reference resolution; it is the denotation the decoder is compared with',
+                  'the harness XML writer; encoding/xml and inspectxml tokenisation are exercised, not modelled'],
+    assumptions=['by the letter of production 7.2.21 an empty property element carrying only rdf:datatype denotes a blank node; model and decoder both follow it'],
+    explanation='the decoder is run against an executable specification (the model) on grammar-directed documents; theorems state facts of that specification for documents of any size',
+    level_text='Proof (partial): C09_li_numbering, C09_li_item, C09_language_scope, C09_base_scope over all documents of the model; equality of decoder and model by exploration over grammar-directed documents (the model is the specification: a difference is a violation).',
+    level_note='Fixes made while building this check: empty property element language, rdf:type property attribute on property elements, xml:base / xml:lang scope of property elements; earlier: zero offset ranges, language-tagged datatypes, re-parse after error.',
+)
